@@ -45,6 +45,30 @@ def parseOpt (j : Json) : Except String (Opt Float) := do
 
 def optNat (j : Json) : Option Nat := match j.getNat? with | .ok n => some n | _ => none
 
+/-- Python's `<` on doubles through the model's `ltA` -/
+def floatLt : Float → Float → Bool := ltA floatArith
+
+/-- `"scond": [op, literal, unit|null]`: a `!condition` of the shape `{?} <op> literal [unit]`, to be
+    evaluated by the MODEL (`condNum`) on the final value instead of being supplied -/
+def parseSCond (j : Json) : Except String (Option (SimpleCond Float)) := do
+  match j.getObjVal? "scond" with
+  | .ok (.arr #[.str o, b, u]) =>
+    let op ← match o with
+      | "eq" => pure CmpOp.eq | "ne" => pure CmpOp.ne | "lt" => pure CmpOp.lt
+      | "gt" => pure CmpOp.gt | "le" => pure CmpOp.le | "ge" => pure CmpOp.ge
+      | _ => throw s!"bad operator {o}"
+    pure (some ⟨op, ← getFloat b, optStr u⟩)
+  | .ok x => throw s!"bad scond {x}"
+  | _ => pure none
+
+/-- the node with its condition computed by the model when it is a simple one (`withNumCond`) -/
+def applySCond (P : Prim Float) (n : Node Float) : Option (SimpleCond Float) → Node Float
+  | none => n
+  | some c =>
+    match n.value with
+    | some (.num x ux) => withNumCond P floatLt n c x ux
+    | _ => { n with condition := some none }
+
 /-- node record for the model plus the specification's verdict on the condition -/
 def parseNode (j : Json) : Except String (Node Float × Option (Option Bool)) := do
   let cond : Option (Option Bool) := match j.getObjVal? "cond" with
@@ -119,7 +143,9 @@ def handle (j : Json) : Except String Json := do
       pure (⟨← n.getStr?, ← getFloat k, dims⟩ : UnitDef)
     | _ => throw "bad unit"
   let P := prim units
-  let nodes ← (← getList (← field j "nodes")).mapM parseNode
+  let nodes ← (← getList (← field j "nodes")).mapM fun nj => do
+    let (n, cs) ← parseNode nj
+    pure (applySCond P n (← parseSCond nj), cs)
   let model := validate P (nodes.map (·.1))
   let specs := nodes.map fun (n, cs) => specNode P n cs
   let spec : Json :=
